@@ -70,6 +70,11 @@ class C14(Prop):
         if rng.random() < 0.1:
             t = rng.choice(['// spec\n', '/* c */ ', 'specification s1 ', 'input float x ', 'const float k = 2.5 ',
                             'float w = 3 ']) + t
+        elif rng.random() < 0.06:
+            # declarations have no terminator: after an initialiser that is an expression, an assertion starting with
+            # a unary minus (or a parenthesis) must still be read as the assertion
+            t = rng.choice(['input float x = w\n', 'float z = 3 + 1\n', 'output float y = (x)\n', 'float w = k\n']) + \
+                rng.choice(['-x <= 3', '- x <= 3;', '(-x) <= 3', 'out = -x <= 3', '-(x + y) >= 1'])
         return t
 
     def mutate(self, rng, t):
@@ -221,6 +226,12 @@ class C14(Prop):
         except Exception as e:
             if drive.is_rtamt_exc(e):
                 v.info['outcome:RTAMTException'] = 1
+                if ok and not probs and case.get('mutated') is False and case.get('declared') == ['x', 'y', 'z'] \
+                        and not case.get('const'):
+                    # "accepts exactly the specification language": a text the generator built as a valid
+                    # specification (all variables declared, nothing mutated) must be accepted
+                    v.bad('rejected-valid', 'parse() rejected the valid specification %r: %s' % (text, str(e)[:200]))
+                    return v
                 if m is not None:
                     self.again(v, m, text, False, case)
                 return v
